@@ -41,10 +41,5 @@ Proof.
   eexists. split; [vm_compute; reflexivity|]. split; [vm_compute; reflexivity|]. vm_compute. discriminate.
 Qed.
 
-(** DiagonalReplicated with output_axis = None takes the normalised input axis without testing
-    it against the operand's output rank: (3,4)->(3,) operand, input_axis = -1 *)
-Lemma C12_replicated_default_axis_refuted : exists e v, spec e = None /\ build e = Some v /\ ~ conforms v.
-Proof.
-  exists (XDRep (XLeaf true (Plain [3; 4]) (Plain [3]) false F32 None (FPromote F32) AAuto) 5 (-1) None).
-  eexists. split; [vm_compute; reflexivity|]. split; [vm_compute; reflexivity|]. vm_compute. discriminate.
-Qed.
+(* C12_replicated_default_axis_refuted removed: repaired in /repo (fix 760899e); the positive statement is
+   Properties/C12.v C12_replicated_default_axis_rejected. *)
